@@ -338,6 +338,10 @@ impl DynamicContainer {
     /// file replacement.
     #[allow(clippy::significant_drop_tightening)]
     pub fn flush_bucket(&self, bucket: u8) -> Result<()> {
+        // A container without write access never rewrites its index files.
+        if !self.access_mode.can_write() {
+            return Ok(());
+        }
         let alloc = self.segment_allocator.read();
         let _lock = alloc.bucket_write_lock(bucket);
         let mut index = self.index.write();
@@ -347,6 +351,10 @@ impl DynamicContainer {
 
     /// Flush all KMT update sections.
     pub fn flush_all_updates(&self) -> Result<()> {
+        // A container without write access never rewrites its index files.
+        if !self.access_mode.can_write() {
+            return Ok(());
+        }
         let mut index = self.index.write();
         index.flush_all_updates()
     }
